@@ -70,6 +70,14 @@ func c05VaryOpts(r *rand.Rand, base eOpts, n int, cmds []database.Command) eOpts
 
 func c05Gen(r *rand.Rand, id int) ([][]database.Command, []c05Step) {
 	dbs := [][]database.Command{eGenDB(r), eGenDB(r), eGenDB(r)}
+	if r.Intn(6) == 0 { // a big database in which one word matches more than 50 entries (long result lists)
+		w := ePlain[r.Intn(10)]
+		for len(dbs[0]) < 60+r.Intn(20) {
+			c := eGenCommand(r)
+			c.Description = w + " " + c.Description
+			dbs[0] = append(dbs[0], c)
+		}
+	}
 	for len(dbs[0]) < 3 {
 		dbs[0] = append(dbs[0], eGenCommand(r))
 	}
@@ -82,7 +90,16 @@ func c05Gen(r *rand.Rand, id int) ([][]database.Command, []c05Step) {
 			pool = append(pool, " "+q, q+" ")
 		}
 	}
+	if len(dbs[0]) >= 60 {
+		w := strings.Fields(dbs[0][len(dbs[0])-1].Description)[0]
+		pool = append(pool, w, w, strings.ToUpper(w))
+	}
 	base := eGenOpts(r, len(dbs[0]), dbs[0])
+	if len(dbs[0]) >= 60 {
+		base.Limit = len(dbs[0]) + 1
+		base.AllPlatforms = true
+		base.PipelineOnly = false
+	}
 	optPool := []eOpts{base, base}
 	for i := 0; i < 4; i++ {
 		optPool = append(optPool, c05VaryOpts(r, optPool[r.Intn(len(optPool))], len(dbs[0]), dbs[0]))
